@@ -120,7 +120,9 @@ theorem pargs_step (G : GCtx) (n : Nat) (hPE : PE G n) (hPArgs : PArgs G n) : PA
       rw [hea] at h1
       cases r1 with
       | error c1 =>
-        cases c1 <;> first | trivial | exact h1.elim | exact fun hk => (hvs2 st.world).fatal (h1 hk)
+        cases c1 <;> first | trivial | exact h1.elim | exact fun hk => (hvs2 st.world).fatal (h1 hk) | skip
+        obtain ⟨hfr1, mem1, hT1, hml1⟩ := h1
+        exact ⟨hfr1, mem1, Runs.throw (vs.map (⟨·, none⟩)) (hvs2 st.world) hT1, hml1⟩
       | ok va =>
         obtain ⟨hfr1, mem1, hrun1, hml1⟩ := h1
         simp only []
